@@ -225,6 +225,10 @@ func runRefMem(c RefCase, a *run.Acc) {
 		a.Violation("engine-leak", fmt.Sprintf("%d native engine objects alive after the in-memory segment was closed", live))
 		return
 	}
+	if m := engineMisuse(); m != "" {
+		a.Violation("engine-misuse", m)
+		return
+	}
 	after, _, err := zx.Build(tm[6], 1026)
 	if err != nil {
 		a.Violation("build-after-close", err.Error())
